@@ -115,7 +115,7 @@ def r08_2(ctx, fx):
 
 def r08_3(ctx, fx):
     n = 0
-    for key in sorted(fx.find(r"^transport::(tcp|websocket|quic)::connection::\w+::(handle_protocol_command|start)::\{closure#0\}::\{closure#\d+\}$")):
+    for key in sorted(fx.find(r"^transport::(tcp|websocket|quic)::connection::\w+::(handle_protocol_command|start|run_event_loop)::\{closure#0\}::\{closure#\d+\}$")):
         fn = fx.fn(key)
         if not fn.is_coroutine:
             continue
